@@ -1,3 +1,4 @@
+import TinysetModel.Proofs.ProgramTotal
 import TinysetModel.Proofs.Repick
 import TinysetModel.Proofs.Consts
 import TinysetModel.Proofs.Plain2
@@ -79,6 +80,18 @@ theorem insert_depth_bounded_u64 {D : Type} (g : Rng D) {r : Rp} (wf : WF cfg64 
 theorem insert_depth_bounded_u32 {D : Type} (g : Rng D) {r : Rp} (wf : WF cfg32 r) (e : Nat) (he : e < 2 ^ 32)
     (hsize : capacity r + 32 + 3 ≤ 2 ^ 32 ∧ 3 * len r + 4 + 32 + 3 ≤ 2 ^ 32) (d : D) :
     ∃ r' b d', insert cfg32 g 2 r e d = .ok ((r', b), d') := insert_total_u32_fuel2 g wf e he hsize d
+
+/-! ### programs over several sets return -/
+
+/-- no hint-free program over any number of sets can make a call run forever or fail, in either set type, for any
+generator (in particular the published deterministic one) — as long as it feeds in fewer than 2^59 / 2^27 items -/
+theorem every_program_returns {D : Type} (g : Rng D) (fuel n : Nat) (ops : List POp) (d : D) :
+    ((∀ op ∈ ops, op.hintFree ∧ op.InRange 64) → 2 * pitems ops < 2 ^ 60 →
+      ∃ s' evs d', prun cfg64 true g (fuel + 2) (List.replicate n .empty) ops d = .ok ((s', evs), d')) ∧
+    ((∀ op ∈ ops, op.hintFree ∧ op.InRange 32) → 2 * pitems ops < 2 ^ 28 →
+      ∃ s' evs d', prun cfg32 false g (fuel + 2) (List.replicate n .empty) ops d = .ok ((s', evs), d')) :=
+  ⟨fun h1 h2 => prun_total (histTotal_u64 g fuel) true ops (U := []) d h1 (by simpa using h2) (reach_replicate g n),
+   fun h1 h2 => prun_total (histTotal_u32 g fuel) false ops (U := []) d h1 (by simpa using h2) (reach_replicate g n)⟩
 
 end C20
 
